@@ -60,7 +60,12 @@ After the program a *fair completion* runs (pending callbacks and the selector t
 nothing can move), then the shutdown (``close()``, the ``atexit`` hook, or the async-generator
 ``aclose`` path that ``shutdown_asyncgens`` takes), then ``close()`` again.
 
-Oracle.  (1) never more than one ``select`` in progress; (2) handler callbacks and ``_handle_select``
+Oracle.  (0) per select round: every event the round reported for a registration that is still there
+after the round was dispatched in that round, order free (``C40.reported_event_not_dispatched``; the
+finite form of "not starved": an event dropped whenever the fd's other direction is ready as well is
+never delivered while that direction stays ready).  A deterministic family ``rw_same_fd`` (192 cases)
+registers ONE fd for reading and writing, ready for both in the same round, both registrations kept.
+(1) never more than one ``select`` in progress; (2) handler callbacks and ``_handle_select``
 only ever run on the actor thread; (3) no deadlock: whenever the scheduler has to pick a thread, at
 least one can run (otherwise: who waits where is reported); (4) no lost event: at quiescence no fd is
 both still registered and still ready (every readiness of a registered fd was dispatched); (5) shutdown
@@ -109,6 +114,10 @@ Sensitivity (quick tier, seed 1, one mutant at a time on a scratch copy; all fou
     ``_thread``) declared at class level: one condition shared by all instances, ``notify()`` wakes the
     oldest waiter, i.e. possibly the other instance's thread ............... caught (C40.deadlock in close()'s
     join / C40.lost_event, by the two-instance cases; label ``instances_share_one_condition``)
+  * ``_handle_select`` as one pass over ``dict.fromkeys(rs, readers)`` updated with ``dict.fromkeys(ws,
+    writers)`` (an fd readable AND writable in one round is a duplicate key: its read event is dropped,
+    and the reader starves while the writer stays ready) .................. caught
+    (C40.reported_event_not_dispatched, by the ``rw_same_fd`` family and generated cases)
   When ``sched`` has found a violation the ``smoke`` part is skipped (with these mutants it would hang
   until its cap and turn the run into exit 2 = inconclusive).
 """
@@ -200,6 +209,17 @@ class FakeLoop:
         if not self.queue:
             return False
         cb, args, context = self.queue.popleft()
+        env = self.env
+        round_ = None
+        if getattr(cb, "__name__", "") == "_handle_select" and len(args) == 2 and env.probe is not None:
+            # one select round is being delivered: remember which of its events belong to registrations
+            # that exist now
+            rs, ws = args
+            round_ = (len(env.dispatches),
+                      {fd for fd in rs if fd in env.readable and fd in env.probe._readers},
+                      {fd for fd in ws if fd in env.writable and fd in env.probe._writers})
+            if round_[1] & round_[2]:
+                env.labels.add("round_with_read_and_write_event_of_one_fd")
         try:
             if context is not None:
                 context.run(cb, *args)
@@ -212,6 +232,20 @@ class FakeLoop:
             # handlers never raise, so an exception here comes out of the code under test
             self.env.problem("C40.exception_in_loop_callback",
                              {"callback": getattr(cb, "__name__", repr(cb))[:60], "exception": repr(e)[:200]})
+            round_ = None
+        if round_ is not None:
+            # Every event select() reported for a registration that is still there after the round must
+            # have been dispatched in this round (order free).  This is the finite form of "not starved":
+            # an event dropped whenever the fd's other direction is ready too is never delivered while
+            # that other direction stays ready (a connected socket is practically always writable).
+            start, pre_r, pre_w = round_
+            done = set(env.dispatches[start:])
+            missed = [("r", fd) for fd in sorted(pre_r) if fd in env.probe._readers and ("r", fd) not in done]
+            missed += [("w", fd) for fd in sorted(pre_w) if fd in env.probe._writers and ("w", fd) not in done]
+            if missed:
+                env.problem("C40.reported_event_not_dispatched",
+                            {"missed": missed, "round": {"rs": sorted(pre_r), "ws": sorted(pre_w)},
+                             "dispatched_in_round": sorted(done)})
         return True
 
 
@@ -853,9 +887,13 @@ def _cross_case(draw):
     if draw(st.booleans()):
         setup = [("ready", a), ("ready", b), ("add_reader", a), ("add_reader", b)]
         cross = [(a, "r", b, "r"), (b, "r", a, "r")]
-    else:
+    elif draw(st.booleans()):
         setup = [("ready", a), ("writable", a), ("add_reader", a), ("add_writer", a)]
         cross = [(a, "r", a, "w")] + ([(a, "w", a, "r")] if draw(st.booleans()) else [])
+    else:
+        # one fd registered for both directions and ready for both in one round; both stay registered
+        setup = [("ready", a), ("writable", a), ("add_reader", a), ("add_writer", a)]
+        cross = []
     program = list(draw(st.permutations(setup))) + runs(1, 4)
     program += list(draw(st.permutations([("add_reader", c), ("ready", c)] + runs(0, 2)))) + draw(st.lists(_op, max_size=3))
     return {
@@ -988,11 +1026,29 @@ _smoke_op = st.one_of(
 )
 smoke_case_s = st.fixed_dictionaries({"program": st.lists(_smoke_op, max_size=12)})
 
-PARTS = {"sched": run_sched_case, "smoke": run_smoke_case}
+def rw_same_fd_cases():
+    """Deterministic family: ONE fd registered as reader and writer and ready for both in the same select
+    round, both registrations kept (plus a second fd ready for reading only); every order of the four
+    set-up operations x thread started before/after x both schedule tails x two shutdown paths."""
+    import itertools
+    setup = [("ready", 0), ("writable", 0), ("add_reader", 0), ("add_writer", 0)]
+    for perm in itertools.permutations(setup):
+        for start_first in (False, True):
+            for tail in ("stay", "switch"):
+                for extra in ([], [("add_reader", 1), ("ready", 1)]):
+                    program = extra[:1] + list(perm) + extra[1:] + [("run",), ("park",), ("run",), ("run",),
+                                                                     ("ready", 0), ("writable", 0), ("park",), ("run",)]
+                    yield {"program": program, "start_first": start_first, "tail_policy": tail, "schedule": [],
+                           "shutdown": "close" if tail == "stay" else "aclose", "oneshot": [], "cross": [],
+                           "run_loop_after_close": False}
+
+
+PARTS = {"sched": run_sched_case, "rw_same_fd": run_sched_case, "smoke": run_smoke_case}
 
 
 def main(ctx):
     ctx.run_replays(PARTS)
+    ctx.enumerate(rw_same_fd_cases(), run_sched_case, name="rw_same_fd", exhaustive=False)
     ctx.explore(sched_case_s, run_sched_case, ctx.n(500, 30000), name="sched")
     if ctx.violations:
         return  # already decided; an inconclusive (exit 2) smoke run must not mask the violation
